@@ -252,7 +252,7 @@ def parser_level(ctx):
             J.add(base, cs, msgs=msgs, kinds=kinds, chunked=chunked, chunk_kind='mixed' if base == 11 else '-')
             singles += 1
         for i in range(n_double):
-            msgs, kinds, chunked, stream = short_stream_job(rng, base, 34 if quick else 60, minlen=10)
+            msgs, kinds, chunked, stream = short_stream_job(rng, base, 34 if quick else 60, minlen=10 if quick else 28)
             J.add(base, [('double_all', c) for c in f.all_double_cuts(len(stream))], msgs=msgs, kinds=kinds, chunked=chunked,
                   chunk_kind='mixed' if base == 11 else '-')
             doubles += 1
@@ -404,6 +404,8 @@ def reproduce(finding):
 
 
 def replay(doc):
+    if 'case' not in doc:
+        return F().replay_obligation(doc, ID)
     c = doc['case']
     if c.get('level') == 'session':
         ok, what, actual = session_judge(c)
